@@ -71,11 +71,41 @@ def parse_frames(ans):
         return frames
     for f in ans.split("|"):
         p = f.split(",")
-        if len(p) != 9:
+        if len(p) not in (9, 10):
             raise ValueError("bad frame " + f)
-        frames.append(dict(instr=int(p[0]), resume=int(p[1]), sp=int(p[2]), fp=int(p[3]), lr=int(p[4]), trust=p[5],
-                           valid=p[6], gp=p[7], module=None if p[8] == "-" else int(p[8])))
+        d = dict(instr=int(p[0]), resume=int(p[1]), sp=int(p[2]), fp=int(p[3]), lr=int(p[4]), trust=p[5],
+                 valid=p[6], gp=p[7], module=None if p[8] == "-" else int(p[8]))
+        if len(p) == 10:       # `c05 --functions`: <function_base>:<function_name> or -
+            d["func"] = None if p[9] == "-" else tuple(p[9].split(":", 1))
+        frames.append(d)
     return frames
+
+
+def strip_functions(ans):
+    """the implementation's answer without the function field (the model driver does not print one)"""
+    if not ans or ans.startswith("P;;"):
+        return ans
+    return "|".join(",".join(f.split(",")[:9]) for f in ans.split("|"))
+
+
+def func_records(symtext):
+    """FUNC records (addr, size, name) of a module's symbol description (S: / Y| / T| forms); None = no symbol file"""
+    if symtext == "-":
+        return None
+    if symtext.startswith("S:"):
+        t = symtext.split(":")
+        return [(int(t[1]), int(t[2]), "f")] if int(t[2]) > 0 else []
+    if symtext.startswith("Y|"):
+        t = symtext.split("|")
+        return [(int(t[1]), int(t[2]), "f")] if int(t[2]) > 0 else []
+    out = []
+    for l in symtext[2:].split("|"):
+        w = l.replace("~", " ").split(" ")
+        if w[0] == "FUNC":
+            if w[1] == "m":
+                w = w[:1] + w[2:]
+            out.append((int(w[1], 16), int(w[2], 16), "_".join(w[4:])))
+    return out
 
 
 def sym(func_lo, func_size, cfi_lo, cfi_size, cfa_off, ra_kind, ra_arg, fp_off):
@@ -182,6 +212,50 @@ class Gen:
             tgt = r.choice(R["lr"] * 3 + R["fp"] * 2 + R["gp"][:4] + R["gp"][-3:] + R["gp"] + R.get("pc", []) + [R["sp"]])
             rules.append("%s%s: %s" % (px, tgt, expr(tgt)))
         return " ".join(rules)
+
+    def func_case(self):
+        """threads over a module whose symbol file has several FUNC records (adjacent, one byte apart, overlapping, with
+        gaps; a function ending at the module end), with return addresses planted exactly at function starts / ends /
+        start + adjustment, so that `return address` and `return address - adjustment` fall into different functions
+        (or one of them into none).  Frames come from scanning (validated through the FUNC records), frame pointers or a
+        module-wide STACK CFI rule."""
+        r = self.r
+        arch = r.choice([0, 1, 1, 2, 3, 4, 5, 6])
+        A = ARCH[arch]
+        R = REGS[arch]
+        pw, bits, adj, px = A["pw"], A["bits"], A["adj"], R["pfx"]
+        top = (1 << bits) - 1
+        mb = r.choice([0x40000000, 0x10000] if bits == 32 else [0x40000000, 0x00007400c0000000, 0x10000])
+        msize = r.choice([0x1000, 0x10000])
+        funcs, off = [], r.choice([0, 0x10, 0x100])
+        for i in range(r.choice([2, 3, 4, 5])):
+            size = r.choice([1, adj, adj + 1, 0x10, 0x40, 0x100])
+            funcs.append((off, size, "f%d" % i))
+            off += size + r.choice([0, 0, 0, 1, adj, 0x10, -1 if size > 1 else 0])
+        if r.chance(1, 3):
+            size = r.choice([0x10, 0x100])
+            funcs.append((msize - size, size + r.choice([0, 0, 1, 0x10]), "fend"))
+        lines = ["FUNC %x %x 0 %s" % f for f in funcs]
+        if r.chance(1, 3):
+            lines.append("STACK CFI INIT 0 %x .cfa: %s%s %d + .ra: .cfa %d - ^" % (msize, px, R["sp"], pw * r.choice([1, 2, 4]), pw))
+        sym_t = "T|" + "|".join(l.replace(" ", "~") for l in lines)
+
+        def addr():
+            a, size, _ = r.choice(funcs)
+            return (mb + a + r.choice([0, 0, 1, adj, adj, adj - 1, adj + 1, size - 1, size, size, size + adj, size + adj - 1,
+                                       size + adj + 1, size + 1, 2])) & top
+        base = 0x80000000 if bits == 32 else 0x00007ffd00000000
+        n_words = r.choice([4, 8, 12, 16])
+        data = []
+        for w in range(n_words):
+            v = r.choice([addr(), addr(), addr(), base + pw * r.range(w + 1, n_words + 2), 0])
+            data += le_bytes(v & top, pw)
+        mods = [(mb, msize, sym_t)]
+        if r.chance(1, 3):
+            mods.append((mb + msize, 0x1000, r.choice(["-", "T|FUNC~0~10~0~g0"])))
+        gp = [r.choice([addr(), 0]) for _ in range(A["ngp"])]
+        return fmt_case(arch, r.choice([0, 0, 1, 2]), addr(), base + pw * r.below(2), base + pw * r.below(n_words), addr() if R["lr"] else 0,
+                        gp, "*", base, data, mods)
 
     def cfi_walk_case(self):
         """a thread whose frames are all described by (random) STACK CFI text that is likely to evaluate:
@@ -592,6 +666,23 @@ def c05_oracle(case, ans):
             mb, ms, _ = c["mods"][f["module"]]
             if not (mb <= f["instr"] < mb + ms):
                 return "frame %d: module %d [%d,+%d) does not cover instruction %d" % (i, f["module"], mb, ms, f["instr"])
+        fn = f.get("func")
+        if fn is not None:
+            # a frame's function, when present, covers its address: it is a FUNC record of the frame's module's own
+            # symbol file whose [base, base + size) contains the frame's instruction (the generated files have no PUBLIC records)
+            fb, name = fn
+            if fb == "?" or name == "?":
+                return "frame %d: function half set (base %s, name %s)" % (i, fb, name)
+            if f["module"] is None:
+                return "frame %d has function %s@%s but no module" % (i, name, fb)
+            mb, ms, sy = c["mods"][f["module"]]
+            recs = func_records(sy)
+            if recs is None:
+                return "frame %d has function %s@%s but its module %d has no symbol file" % (i, name, fb, f["module"])
+            fb = int(fb)
+            if not any(mb + a == fb and nm == name and fb <= f["instr"] < fb + sz for (a, sz, nm) in recs):
+                return "frame %d: function %s@%d does not cover instruction %d (FUNC records of module %d at %d: %s)" % (
+                    i, name, fb, f["instr"], f["module"], mb, ", ".join("%s@+%d size %d" % (nm, a, sz) for (a, sz, nm) in recs[:8]))
     return None
 
 
@@ -611,6 +702,11 @@ class C05(PropBase):
         "Coq 8.16.1 kernel (vm_compute only in the _refuted / non-vacuity statements)",
         "model C05/Model.v written by hand from minidump-unwind/src/{lib,x86,amd64,arm,arm64,mips}.rs (arm64_old checked to be "
         "arm64's textual twin by the translator); constants regenerated by translate/unwind_consts.py; tied to the code by the correspondence run",
+        "translate/unwind_consts.py's statement/expression subset of Rust (if / let / return None / frame.instruction = / && || ! "
+        "comparisons / + - / widening `as`) and its reading of the operands (frame.context.get_instruction_pointer(), "
+        "get_stack_pointer(), ctx.esp / ctx.rsp / ctx.get_register_always(sp), args.callee_frame.trust == FrameTrust::Context, "
+        "get_memory_at_address::<u8>(sp).is_none()) when it re-emits the guards of get_caller_frame / walk_stack as Gen/UnwindTail.v",
+        "C11's model of SymbolFile::fill_symbol (C11.Model.symbolize) stands for fill_symbol in c05_function_covers; C11's own check ties it to the code",
         "oracles of the model (Section variables): module lookup (contract = C08 c08_lookup_sound), symbol-file CFI/WIN walk "
         "(contract: register values fit the register width), instruction_seems_valid_by_symbols — universally quantified in the theorems",
         "the driver instantiates them with C08's range map and a small evaluator of one STACK CFI rule family (coq/C05/Driver.v)",
@@ -624,15 +720,25 @@ class C05(PropBase):
                 "a scan frame's return address is the word just below its sp inside the stack memory; module lookups cover the address (from C08); "
                 "no panic site of the walker is reachable; the C03 frame bound: at most |stack bytes| + 2 frames, fuel |stack| + 3 suffices; "
                 "ptr_auth_strip mask soundness; the CFI-oracle contract proved for C06's model of the real CfiStackWalker. "
+                "The checks at the end of every <arch>::get_caller_frame (nullish ip, sp must grow, leaf exception, call adjustment), the stop "
+                "guard of walk_stack and the arithmetic flavour of amd64's resolve() are RE-EMITTED from the Rust text on every run "
+                "(Gen/UnwindTail.v); theorems about exactly these generated definitions: c05_tail_sound_<arch> (never traps; a frame let through has "
+                "ip >= 4096, instruction = ip - adjustment, sp above the callee's or, ARM/ARM64/MIPS, equal with the callee being the context frame), "
+                "c05_tail_pinned (generated = parametric model, all inputs), c05_generated_<arch> (well-formedness, no panic, frame bound for the "
+                "walker made of the generated pieces - the walker the correspondence run executes). "
+                "c05_function_covers: for every frame of a walk, its module (C08 range map) covers the instruction and the function C11's model of "
+                "fill_symbol sets is a FUNC record of that module's file with base <= instruction < base + size (or a PUBLIC record at or below it). "
                 "The model is tied to the code by running minidump_unwind::walk_stack and the extracted model on generated adversarial and "
-                "well-formed stacks in debug and release builds; an independent oracle evaluates the invariants on the implementation's frames.",
+                "well-formed stacks in debug and release builds; an independent oracle evaluates the invariants on the implementation's frames, "
+                "incl. module covers and function covers (function base/name observed per frame, judged against the FUNC records of the case's own "
+                "symbol file; generator plants return addresses on function starts / ends / start + adjustment of adjacent and overlapping FUNCs).",
         "note": "Trusted: Coq kernel; hand-written model (correspondence-checked, not verified against rustc semantics); the CFI/WIN evaluation "
                 "inside the symbol file is abstract here (C06/C07 model it); async plumbing, tracing and the debuginfo provider are not modelled; "
                 "stack memory is little-endian and its descriptor size equals the byte count.",
     }
     assumptions = ["stack memory little-endian, MinidumpMemory.size == bytes.len()",
                    "symbol provider = breakpad Symbolizer over string symbol files; debuginfo (framehop) provider not covered",
-                   "function names / source lines of frames are not observed here (C11)"]
+                   "source lines / inlines of frames are not observed here (C11); function base and name are judged by the oracle, not compared with the model"]
 
     _prof = "debug"
 
@@ -644,7 +750,10 @@ class C05(PropBase):
         return "P" if a == "P" else a
 
     def canon_impl(self, case, ans, profile):
-        return "P" if ans.startswith("P;;") else ans
+        return "P" if ans.startswith("P;;") else strip_functions(ans)
+
+    def impl_cmd(self, exe, profile):
+        return [exe, "--functions"]     # 10th field per frame: function base and name (judged by the oracle only)
 
     def oracle(self, case, ans, profile):
         self._prof = profile        # the runner calls oracle, then canon_model/canon_impl, for the same (case, profile)
@@ -658,7 +767,7 @@ class C05(PropBase):
         g = Gen(rng)
         cases = []
         dist = {"adversarial": 0, "wellformed": 0, "by_arch": {}}
-        n_adv = 26000 if tier == "quick" else 300000
+        n_adv = 24000 if tier == "quick" else 300000
         for _ in range(n_adv):
             c = g.case()
             cases.append(c)
@@ -669,6 +778,10 @@ class C05(PropBase):
         for _ in range(n_cfi):
             cases.append(g.cfi_walk_case())
         dist["cfi_rule_text_walks"] = n_cfi
+        n_fn = 2000 if tier == "quick" else 20000
+        for _ in range(n_fn):
+            cases.append(g.func_case())
+        dist["function_boundaries"] = n_fn
         n_win = 1500 if tier == "quick" else 15000
         for _ in range(n_win):
             c, _ = win_stack(rng, rng.choice([1, 2, 3, 4, 6, 9, 16]), perturb=rng.chance(2, 3))
